@@ -138,6 +138,11 @@ Proof. exact batch_complete_lemma. Qed.
 Theorem C04_holds : forall cs, c04_wf cs = true -> ok_C04 cs (model_C04 cs) = true.
 Proof. exact C04_holds_lemma. Qed.
 
+(** a WebSocket client without a notification subscriber: the notifications
+    are dropped, no call is affected *)
+Theorem C04_holds_nosub : forall cs, c04_wf cs = true -> ok_C04_nosub cs (model_C04_nosub cs) = true.
+Proof. exact C04_holds_nosub_lemma. Qed.
+
 (** ** non-vacuity *)
 
 (** three callers on a WebSocket client; the server answers 2, 0, 1 with an
@@ -330,3 +335,6 @@ Print Assumptions C04_disabled_stutter.
 Print Assumptions C04_batch_aligned.
 Print Assumptions C04_batch_complete.
 Print Assumptions C04_holds.
+
+Check C04_holds_nosub : forall cs, c04_wf cs = true -> ok_C04_nosub cs (model_C04_nosub cs) = true.
+Print Assumptions C04_holds_nosub.
